@@ -54,7 +54,7 @@ CHECKS['C12'] = dict(
     rule='all 2x4x256 T-table entries enumerated against SubBytes+MixColumns of the model; generated 16-byte (state,key) pairs (uniform, constant, and '
          'single-byte states that isolate one table entry and byte route) through soft_aesenc/dec, the AES-NI path and the aesenc<>/aesdec<> switch vs the '
          'FIPS-197 model; generated 64-byte seeds x sizes 64*{0,1,2,3,4,63,64,65,127..129, uniform<200} (thorough: 4096, 32767, 32768 blocks) through '
-         'fillAes1Rx4, fillAes4Rx4, hashAes1Rx4, hashAndFillAes1Rx4 in both template instantiations vs the model of specs.md ch.3, incl. sizes below the '
+         'fillAes1Rx4, fillAes4Rx4, hashAes1Rx4, hashAndFillAes1Rx4 in both template instantiations vs the model of specs.md ch.3, buffers placed at 0/16/32/48 bytes from a 64-byte boundary (every 16-byte aligned placement is accepted by the functions) between canaries, incl. sizes below the '
          '4 KiB prefetch distance, final generator state and a canary behind the buffer. Non-trivial: every distinct generated (state,key) / (seed,size,buffer)',
     assumptions=COMMON_ASSUME + ['model/ref_aes.cpp is a correct reading of FIPS-197 and specs.md ch.3 (self-tested against FIPS-197 App.B, the CPU AESENC/AESDEC instructions and the Blake2b derivation of the printed keys)'],
     stages=[
@@ -142,7 +142,7 @@ CHECKS['C09'] = dict(
          'only the 14 encodings of the ten instruction kinds, registers 0-7, Table 6.1.1 operand rules, address register = longest dependency chain recomputed from the instruction list; '
          '(B) instruction-for-instruction equality with the model generator; the model reports which rare paths it took (operand stall / look-ahead, throw-away, r5 two-register case, '
          'chained multiplication allowed, stop by size/ports); (C) generated r0-r7 (boundary-biased) through executeSuperscalar and through the native code of '
-         'JitCompilerX86::generateSuperscalarHash (entered behind its located register-init prologue, zero cache) for the chain of 8 and for single programs. '
+         'JitCompilerX86::generateSuperscalarHash (entered behind its located register-init prologue, zero cache) for the chain of 8, for single programs, and for single programs whose immediates were replaced by boundary values (imm8/sign-extension corners 0x7f/0x80/0xff/0xffffff7f/0xffffff80.., rotation counts 1/31/32/33/63, extreme divisors; immediates are free draws of the key-seeded generator, so these are still programs a key can produce - encodable-immediate corners of the code generator have probability ~1/20000 per key otherwise). '
          'Non-trivial: key (distinct in its first 60 bytes) with at least one program that hit source-operand starvation, the least frequent path observed (measured: ~12% of programs; throw-away, destination stall, chained-mul and the r5 case turn out to occur in most programs)',
     assumptions=COMMON_ASSUME + ['model/ref_superscalar.cpp: the generator details specs.md 6.3 leaves open (draw order, look-ahead 4, throw-away limit 256) are pinned to upstream; validated by the 10 published digests'],
     stages=[
@@ -155,7 +155,7 @@ CHECKS['C10'] = dict(
     level='exploration',
     rule='(a) reduced Argon2d instances through the entry points cache initialisation uses (randomx_argon2_initialize, randomx_argon2_fill_memory_blocks, instance.impl in {ref, SSSE3, AVX2}): '
          'password length 0..300 (incl. > 64 = multi-block initial hash), salt 8..32 bytes, m = 4k blocks for k in {2,3,4,8,16,64,512} or uniform 2..64, passes 1..4, lanes 1, version 0x13; '
-         '(b) full 256 MiB caches through randomx_alloc_cache/init_cache with the three Argon2 flags for generated keys; (c) re-key sequence K1 -> K2 -> K1 on one cache object. '
+         '(b) full 256 MiB caches through randomx_alloc_cache/init_cache with the three Argon2 flags for generated keys; (c) re-key sequence K1 -> K2 -> empty key -> K1 on one cache object; the empty key / password is passed both as (NULL, 0) and as (non-NULL pointer, 0). '
          'Oracle: memory == independent RFC 9106 Argon2d fill (finalisation omitted), hence the three implementations are byte-identical and a re-keyed cache carries no trace of the previous key; '
          'canary behind the reduced memory array. Non-trivial: every distinct (password, salt, m, t) / key',
     assumptions=COMMON_ASSUME + ['model/ref_argon2.cpp is a correct reading of RFC 9106 (self-tested against the RFC Argon2d vector incl. secret, associated data, 4 lanes and finalisation)'],
@@ -288,7 +288,7 @@ CHECKS['C19'] = dict(
     rule='ProgramGen cases (all shapes incl. IMUL_RCP-saturated programs that exhaust the 12 literal registers and switch to ldr-literal, boundary immediates, src==dst forms, CBRANCH/CFROUND-heavy) x fast (synthetic dataset) / '
          'light (emitted SuperscalarHash code over a real cache) x v1/v2 x hard/soft AES x entry rounding mode; the A64 emitter runs on the host, its output plus the cross-assembled hand-written runtime is executed by an AArch64 '
          'instruction-subset emulator with every access checked against the known regions. Oracle: r/f/e registers, 2 MiB scratchpad and final rounding mode == host interpreter on the same injected program. '
-         'Dataset: generated (start,count) ranges through the emitted randomx_init_dataset_aarch64 == initDatasetItem. Non-trivial: every distinct program / range',
+         'Dataset: generated (start,count) ranges through the emitted randomx_init_dataset_aarch64 == initDatasetItem, over the SuperscalarHash programs of the key and over variants whose immediates were replaced by boundary values (movz/movn/movk split corners, harness/ssmut.hpp). Non-trivial: every distinct program / range',
     assumptions=COMMON_ASSUME + ['emu/a64.hpp implements the Arm ARM semantics of the ~60 instruction forms used (every distinct executed word is cross-checked against llvm-objdump\'s decoding at the end of a run; unknown encodings are hard errors)',
                                  'the one aarch64-only line outside the back-end (copy of eMask into reg.f in CompiledVm::execute) is performed by the harness and therefore not under test',
                                  'cache maintenance / instruction-cache coherence is outside the emulated model'],
@@ -367,7 +367,7 @@ CHECKS['C20'] = dict(
     rule='ProgramGen cases (all shapes incl. IMUL_RCP-saturated programs that walk the integer-register / FP-register / literal-pool paths at 4 and 10 reciprocals and both halves of the 494-entry pool, CBRANCH distances selecting '
          'c.beqz / beq / c.bnez+jal, CFROUND with and without rotation, boundary immediates for the lui/addiw materialisation) x fast / light x v1/v2 (soft-AES mix) x entry rounding mode; the scalar RV64 emitter (hasRVV shimmed to false) runs on the '
          'host, its output plus the cross-assembled runtime is executed by an RV64GC instruction-subset emulator with region-checked memory. Oracle: r/f/e registers, scratchpad and final rounding mode == host interpreter; '
-         'emitted dataset-init code == initDatasetItem for generated ranges. Non-trivial: every distinct program / range',
+         'emitted dataset-init code == initDatasetItem for generated ranges, over the SuperscalarHash programs of the key and over variants whose immediates were replaced by boundary values (lui/addi split corners around 0x800, harness/ssmut.hpp). Non-trivial: every distinct program / range',
     assumptions=COMMON_ASSUME + ['emu/rv64.hpp implements the RISC-V unprivileged ISA semantics of the RV64IMD+Zicsr+C forms used (decode of every executed word cross-checked against llvm-objdump; unknown encodings are hard errors)',
                                  'built without Zba/Zbb (the #ifdef paths for those extensions are not compiled); vector back-end out of scope per the property',
                                  'fence.i / instruction-cache coherence is outside the emulated model'],
